@@ -156,13 +156,14 @@ structure Mem where
   dataEnd : Nat := 0
   /-- `header.footer_offset − base` -/
   footer : Nat := 0
-  /-- `toc.ticket_ref.capacity_bytes` (0 = none) -/
-  ticketCap : Nat := 0
-  ticketSeq : Int := 0
+  /-- `toc.ticket_ref.capacity_bytes` (0 = none); `empty_toc` starts with the free-tier ticket
+      (issuer "free-tier", seq_no 1, capacity 50 MiB) -/
+  ticketCap : Nat := 50 * 1024 * 1024
+  ticketSeq : Int := 1
   /-- `toc.ticket_ref.issuer` is non-blank -/
-  hasIssuer : Bool := false
+  hasIssuer : Bool := true
   /-- `toc.ticket_ref.issuer == "free-tier"` -/
-  freeTierIssuer : Bool := false
+  freeTierIssuer : Bool := true
   vecEnabled : Bool := false
   /-- `toc.indexes.vec` exists -/
   vecManifest : Bool := false
@@ -402,12 +403,12 @@ def timeEntries (frames : List Frame) : List (Int × Nat) :=
   ((frames.filter (fun f => f.status == .active && f.role == .document)).map (fun f => (f.ts, f.id))).mergeSort timeLe
 
 /-- `flush_tantivy`: when the engine is dirty, commit it, embed a snapshot and append one `Lex`
-    record to the WAL (the record stays pending until the next checkpoint). -/
-def Mem.flushTantivy (m : Mem) : Mem :=
+    record to the WAL (the record stays pending until the next checkpoint); `ft` = footer after the embedded snapshot. -/
+def Mem.flushTantivy (m : Mem) (ft : Nat) : Mem :=
   if !m.tantivyDirty then m else
   if m.engine then
     { m with tantivyDirty := false, seq := m.seq + 1, pending := m.pending ++ [(m.seq + 1, .lex)],
-             tantivySegs := true, pQueue := m.queue }
+             tantivySegs := true, pQueue := m.queue, footer := max m.footer ft }
   else { m with tantivyDirty := false }
 
 /-- `rebuild_tantivy_engine`: the engine is reset and every ACTIVE frame with index text is added -/
@@ -430,7 +431,7 @@ def Mem.rebuildIndexes (m : Mem) (newEmbs : List VecEnt) (inserted : List Nat) (
             | some f => f.status == .active && f.idx
             | none => false)
         else fullLexRebuild m1.frames
-      { m1 with lexDocs := docs, engine := true, tantivyDirty := true }.flushTantivy
+      { m1 with lexDocs := docs, engine := true, tantivyDirty := true }.flushTantivy ft
     else m1
   -- vector index (`build_vec_artifact`)
   let m3 : Mem :=
@@ -459,7 +460,7 @@ def Mem.commitFromRecords (m : Mem) (ft : Nat) : Option Mem :=
     let m2 :=
       if delta.nonEmpty then m1.rebuildIndexes delta.embs delta.inserted ft
       else
-        let m1' := m1.flushTantivy
+        let m1' := m1.flushTantivy ft
         -- `persist_memories_track` when no rebuild happened
         { m1' with pCards := if m1'.cards.isEmpty then m1'.pCards else some (m1'.cards, m1'.enrRecs)
                    footer := max m1'.footer ft }
@@ -741,18 +742,19 @@ def Mem.openFrom (m : Mem) (ft : Nat) : Mem :=
       cards := [], enrRecs := [], sketch := [] }
   -- `recover_wal`
   let m2 : Mem :=
-    if m1.pending.isEmpty then m1.flushTantivy
+    if m1.pending.isEmpty then m1.flushTantivy ft
     else
       match applyRecords m1 m1.pending true with
       | none => m1
       | some (ma, delta) =>
-        let mb := if delta.nonEmpty then ma.rebuildIndexes delta.embs delta.inserted ft else ma.flushTantivy
+        let mb := if delta.nonEmpty then ma.rebuildIndexes delta.embs delta.inserted ft else ma.flushTantivy ft
         mb.checkpoint
   -- `load_memories_track`, `load_sketch_track`
   { m2 with
     cards := match m2.pCards with | some c => c.1 | none => []
     enrRecs := match m2.pCards with | some c => c.2 | none => []
-    sketch := m2.pSketch }
+    -- the persisted sketch track stores no frame ids: entries come back numbered 0..n-1 (C39 finding)
+    sketch := List.range m2.pSketch.length }
 
 /-- drop the handle (commit when dirty) and open the file again -/
 def Mem.reopen (m : Mem) (ftDrop ftOpen : Nat) : Mem × Out :=
@@ -817,16 +819,31 @@ inductive Op where
   | commitSkipIndexes
   | finalizeIndexes (ft : Nat)
   | vacuum (ftCommit ftRebuild : Nat)
-  | doctor (vacuum : Bool) (ftDrop ftA ftB ftOpen : Nat)
+  | doctor (vacuum rebuildTime rebuildLex rebuildVec : Bool) (ftDrop ftA ftB ftOpen : Nat)
   | ticket (seqNo : Int) (cap : Nat) (issuerBlank issuerFree : Bool)
 deriving Repr, Inhabited
 
-/-- `Memvid::doctor(path, opts)` run on the closed file (drop first, open afterwards): optional vacuum,
-    then a full index rebuild; the frame table is only touched by the vacuum. -/
-def Mem.doctor (m : Mem) (vac : Bool) (ftDrop ftA ftB ftOpen : Nat) : Mem × Out :=
+/-- `doctor.rs reset_wal`: the WAL region is zeroed and the sequence restarts at 0 -/
+def Mem.resetWal (m : Mem) : Mem :=
+  { m with pending := [], seq := 0, pendingInserts := m.pendingInserts, dirty := false, tantivyDirty := false }
+
+/-- `Memvid::doctor(path, opts)` on the closed file (the harness drops the handle first and opens it
+    again afterwards): open (with WAL replay), optional vacuum, then — when any rebuild was requested —
+    `apply_pending_rebuilds` (a requested vector rebuild forgets manifest and in-memory index first,
+    so `rebuild_indexes` writes an EMPTY vector index) followed by `reset_wal`.  The frame table is
+    only touched by the vacuum. -/
+def Mem.doctor (m : Mem) (vac rt rl rv : Bool) (ftDrop ftA ftB ftOpen : Nat) : Mem × Out :=
   let m1 := (m.dropHandle ftDrop).openFrom ftA
-  let m2 := if vac then (m1.vacuum ftA ftB).1 else m1.rebuildIndexes [] [] ftB
-  ((m2.dropHandle ftB).openFrom ftOpen, .ok)
+  let m2 := if vac then (m1.vacuum ftA ftB).1 else m1
+  let m3 : Mem :=
+    if rt || rl || rv then
+      let mv : Mem :=
+        if rv then { m2 with vecEnabled := true, vecManifest := false, vec := none, pVec := none }
+        else if m2.vecEnabled && m2.vec.isNone && m2.vecManifest then { m2 with vec := m2.pVec }
+        else m2
+      (mv.rebuildIndexes [] [] ftB).resetWal
+    else m2
+  ((m3.dropHandle ftB).openFrom ftOpen, .ok)
 
 def step (m : Mem) : Op → Mem × Out
   | .create => (Mem.create, .ok)
@@ -841,7 +858,7 @@ def step (m : Mem) : Op → Mem × Out
   | .commitSkipIndexes => m.commitSkipIndexes
   | .finalizeIndexes ft => m.finalizeIndexes ft
   | .vacuum a b => m.vacuum a b
-  | .doctor v a b c d => m.doctor v a b c d
+  | .doctor v rt rl rv a b c d => m.doctor v rt rl rv a b c d
   | .ticket s c b f => m.applyTicket s c b f
 
 def run (m : Mem) : List Op → Mem
